@@ -269,7 +269,11 @@ impl Directive {
                     if let Some(Operand::S(include)) = values.get(0) {
                         let path = PathBuf::from(include);
                         let path = if path.is_relative() {
-                            let mut current_path = current_path.parent().unwrap().to_path_buf();
+                            // filesystem root has no parent: relative path is resolved against the root itself
+                            let mut current_path = current_path
+                                .parent()
+                                .unwrap_or(current_path.as_path())
+                                .to_path_buf();
                             current_path.push(path);
                             current_path
                         } else {
